@@ -73,6 +73,7 @@ inductive Req where
   | upsert (k : Nat) (v : Option Nat) (w : Option Int) (ttl : Option Nat) (rm : Bool)
   | getRef (k : Nat)            -- get_ref: the store shard's read guard outlives `mark_key_accessed`
   | shutdown
+  | mget (ks : List Nat) (iter : Bool)   -- multi_get (`iter = false`) / multi_get_iterator, multi_get_map_iterator (`true`)
   deriving Repr, Inhabited
 
 /-- where a client stands -/
@@ -105,6 +106,8 @@ inductive CPc where
   | shutAfClear                                                 -- shutdown.af_clear
   | shutStatsClear                                              -- shutdown.stats_clear
   | shutTtlClear                                                -- shutdown.ttl_clear
+  | mgetStore (k : Nat) (ks : List Nat) (acc : List (Option Nat)) (iter : Bool)    -- store.get of key `k` of a multi-key read; `ks` still to come
+  | mgetPool (k v : Nat) (ks : List Nat) (acc : List (Option Nat)) (iter : Bool)   -- pool.add for the hit on `k`
   deriving Repr, Inhabited
 
 inductive Tid where
@@ -326,6 +329,16 @@ def setClient (b : BState) (i : Nat) (pc : CPc) : BState := { b with cl := b.cl.
 def finishCall (b : BState) (i : Nat) (out : Out) : BState :=
   { b with cl := b.cl.set i .idle, res := b.res.set i (out :: (b.res.getD i [])) }
 
+/-- A multi-key read moves on to its next key after `acc` has been gathered (no schedule point in between): each key
+    goes through `get`, which looks at the shutdown flag first. With the flag set `multi_get` yields `None` for every
+    remaining key, the iterators end there (`keys.is_empty() || is_shutting_down()`). -/
+def mgetNext (b : BState) (i : Nat) (ks : List Nat) (acc : List (Option Nat)) (iter : Bool) : BState :=
+  match ks with
+  | [] => finishCall b i (.values acc)
+  | k :: rest =>
+    if b.g.shutting then finishCall b i (.values (if iter then acc else acc ++ (k :: rest).map (fun _ => none)))
+    else setClient b i (.mgetStore k rest acc iter)
+
 /-- `CommandExecutor::send` as the last action of a call (blocking: not enabled while the queue is full). -/
 def sendAct (b : BState) (i : Nat) (cmd : Cmd) : Except String BState :=
   let g := b.g
@@ -362,6 +375,7 @@ def clientAct (b : BState) (i : Nat) (o : Oracle) : Except String (BState × Ora
         (match r with
          | .get _ => .ok (finishCall b i (.value none), o)
          | .getRef _ => .ok (finishCall b i (.value none), o)
+         | .mget _ _ => .ok (finishCall b i (.values []), o)
          | .weight => .ok (setClient b i .weightRead, o)
          | .shutdown => .ok (setClient b i .shutCas, o)
          | _ => .ok (finishCall b i .err, o))
@@ -374,6 +388,7 @@ def clientAct (b : BState) (i : Nat) (o : Oracle) : Except String (BState × Ora
         | .weight => .ok (setClient b i .weightRead, o)
         | .upsert k v w ttl rm => .ok (setClient b i (.upUpdate k v w ttl rm), o)
         | .getRef k => .ok (setClient b i (.refStore k), o)
+        | .mget ks iter => .ok (mgetNext b i ks [] iter, o)
         | .shutdown => .ok (setClient b i .shutCas, o))
     | .putPresent k v w ttl =>
       if g.store.contains k then .ok (spotFinish b i (.rejected .keyAlreadyExists), o)
@@ -401,6 +416,17 @@ def clientAct (b : BState) (i : Nat) (o : Oracle) : Except String (BState × Ora
     | .getPool k v =>
       (match poolAdd g (g.cfg.hashOf k) o with
        | .ok (g1, o') => .ok (finishCall { b with g := g1 } i (.value (some v)), o')
+       | .error m => .error m)
+    | .mgetStore k ks acc iter =>
+      (match g.store.get? k with
+       | some e =>
+         if e.alive g.now then
+           .ok (setClient { b with g := { g with stats := { g.stats with hits := g.stats.hits + 1 } } } i (.mgetPool k e.value ks acc iter), o)
+         else .ok (mgetNext { b with g := { g with stats := { g.stats with misses := g.stats.misses + 1 } } } i ks (acc ++ [none]) iter, o)
+       | none => .ok (mgetNext { b with g := { g with stats := { g.stats with misses := g.stats.misses + 1 } } } i ks (acc ++ [none]) iter, o))
+    | .mgetPool k v ks acc iter =>
+      (match poolAdd g (g.cfg.hashOf k) o with
+       | .ok (g1, o') => .ok (mgetNext { b with g := g1 } i ks (acc ++ [some v]) iter, o')
        | .error m => .error m)
     | .weightRead =>
       if !wuFree b (.client i) then .error "not enabled: weight_used is locked"
